@@ -100,8 +100,17 @@ class Lexer:
                     result.append("'")
                 elif escape == '"':
                     result.append('"')
-                elif escape == "0":
+                elif escape == "0" and not self._current().isdigit():
                     result.append("\0")
+                elif escape.isdigit():
+                    raise JSSyntaxError(
+                        "Octal escape sequences are not allowed", self.line, self.column
+                    )
+                elif escape == "\n":
+                    pass  # line continuation
+                elif escape == "\r":
+                    if self._current() == "\n":
+                        self._advance()
                 elif escape == "b":
                     result.append("\x08")  # Backspace
                 elif escape == "f":
@@ -112,6 +121,8 @@ class Lexer:
                     # Hex escape \xNN
                     hex_chars = self._advance() + self._advance()
                     try:
+                        if not all(c in "0123456789abcdefABCDEF" for c in hex_chars):
+                            raise ValueError(hex_chars)
                         result.append(chr(int(hex_chars, 16)))
                     except ValueError:
                         raise JSSyntaxError(
@@ -132,6 +143,8 @@ class Lexer:
                         for _ in range(4):
                             hex_chars += self._advance()
                     try:
+                        if not all(c in "0123456789abcdefABCDEF" for c in hex_chars):
+                            raise ValueError(hex_chars)
                         result.append(chr(int(hex_chars, 16)))
                     except ValueError:
                         raise JSSyntaxError(
@@ -156,7 +169,18 @@ class Lexer:
         return "".join(result)
 
     def _read_number(self) -> float | int:
-        """Read a number literal."""
+        """Read a number literal; it must not be followed directly by a name or digit."""
+        line, col = self.line, self.column
+        value = self._scan_number()
+        ch = self._current()
+        if ch and (ch.isalnum() or ch in "_$"):
+            raise JSSyntaxError(
+                "Identifier starts immediately after numeric literal", line, col
+            )
+        return value
+
+    def _scan_number(self) -> float | int:
+        """Scan the characters of a number literal."""
         start = self.pos
         line = self.line
         col = self.column
@@ -199,6 +223,9 @@ class Lexer:
         # Decimal number (integer part)
         while self._current() and self._current().isdigit():
             self._advance()
+        if self.pos - start > 1 and self.source[start] == "0":
+            # 010, 08: legacy octal / leading zeros are errors in strict code
+            raise JSSyntaxError("Octal literals and leading zeros are not allowed", line, col)
 
         # Decimal point: the fraction digits are optional (1. and 1.e3 are numbers),
         # but "1.toFixed" keeps meaning a property access on 1
